@@ -309,6 +309,7 @@ type runner struct {
 	res  map[string]int // tag/verdict -> count
 	addrViol []string   // keys whose GetAddress differs from the reference address
 	dump     *os.File
+	branch   map[string]int // which branch of the real code decided the verdict
 	hs       hardenStats
 	ret      []retained
 	retMax   int
@@ -328,6 +329,7 @@ func (rn *runner) vt(tag string, c chainCfg, height uint64, tx *types.Transactio
 	r := rn.out.Do(line, func() string { return verdict(rn.pool.VerifyTransaction(arg, height)) })
 	rn.tags[tag]++
 	rn.res[tag+"/"+r]++
+	rn.branch[branchOf(c, height, tx, r)]++
 	if rn.dump != nil && rn.tags[tag] == 1 && (strings.Contains(tag, "short") || strings.Contains(tag, "hash0") || strings.Contains(tag, "unpadded") || tag == "native-other-height") {
 		fmt.Fprintf(rn.dump, "# %s (%s)\n%s\n", tag, r, strings.Join(strings.Fields(line)[:20], " "))
 	}
@@ -345,6 +347,53 @@ func (rn *runner) vt(tag string, c chainCfg, height uint64, tx *types.Transactio
 		rn.ret = append(rn.ret, x)
 	}
 	return r
+}
+
+// branchOf names the branch of VerifyTransaction that decides a verdict (distribution only).
+func branchOf(c chainCfg, height uint64, tx *types.Transaction, verdict string) string {
+	if tx.Type == types.TransactionTypeETHTX {
+		if verdict == "ok" {
+			return "eth:ok"
+		}
+		enc := common.FromHex(tx.ExtraData)
+		et := new(eth_tx.Transaction)
+		if err := rlp.DecodeBytes(enc, et); err != nil {
+			return "eth:undecodable"
+		}
+		if re, err := rlp.EncodeToBytes(et); err != nil || !bytes.Equal(re, enc) {
+			return "eth:noncanonical"
+		}
+		if _, err := eth_tx.Sender(eth_tx.NewEIP155Signer(refEthChain(c, height)), et); err != nil {
+			if err == eth_tx.ErrInvalidChainId {
+				return "eth:sender-other-chain"
+			}
+			if err == eth_tx.ErrInvalidSig {
+				return "eth:sender-invalid-values"
+			}
+			return "eth:sender-recovery-failed"
+		}
+		return "eth:declared-field-differs"
+	}
+	switch verdict {
+	case "ok":
+		return "native:ok"
+	case "chainid":
+		return "native:chainid"
+	case "hash":
+		return "native:hash"
+	}
+	if tx.Sign == nil {
+		return "native:sign-nil"
+	}
+	sb := tx.Sign.Bytes()
+	pk, err := secp256k1.RecoverPubkey(tx.Hash.Bytes(), append([]byte{}, sb...))
+	if err != nil {
+		return "native:sign-recovery-failed"
+	}
+	if !secp256k1.VerifySignature(pk, tx.Hash.Bytes(), sb[:64]) {
+		return "native:sign-verify-failed"
+	}
+	return "native:sign-other-address"
 }
 
 // addr: PublicKey.GetAddress of the real code on a 65-byte key vs the model's padded derivation.
@@ -467,7 +516,16 @@ func (rn *runner) batchOps(g gen, kp *keyPool, c chainCfg, height uint64, i int)
 				kinds += "N"
 			}
 		}
-		r := rn.batchOp("batch-"+entry, entry, c, height, batch)
+		var r string
+		if b == 1 && len(batch) >= 2 {
+			// the first element (or an honest transaction with the same hash but another signature
+			// spelling) is already in the pool
+			pre := []*types.Transaction{batch[0]}
+			r = rn.batchOpPre("batch-"+entry+"-prefilled", entry, c, height, pre, batch)
+			kinds = "pre:" + kinds
+		} else {
+			r = rn.batchOp("batch-"+entry, entry, c, height, batch)
+		}
 		rn.res["batch-shape/"+kinds+"="+r]++
 	}
 }
@@ -1157,7 +1215,7 @@ func main() {
 		panic(err)
 	}
 	defer out.Close()
-	rn := &runner{out: out, pool: pool, tags: map[string]int{}, res: map[string]int{}, retMax: 3000, rr: hx.NewRng(hx.SeedFromEnv() ^ 0xa11a5)}
+	rn := &runner{out: out, pool: pool, tags: map[string]int{}, res: map[string]int{}, branch: map[string]int{}, retMax: 3000, rr: hx.NewRng(hx.SeedFromEnv() ^ 0xa11a5)}
 	if a["dump"] != "" {
 		rn.dump, _ = os.Create(a["dump"])
 		defer rn.dump.Close()
@@ -1270,8 +1328,31 @@ func main() {
 		for _, m := range ethFieldMutants(g.r, wtx) {
 			rn.vt("eth-mut-"+m.field, c, height, m.tx)
 		}
-		for _, uc := range unsignedCases(g, et, k, chain) {
-			rn.vt("eth-unsigned-"+uc.name, c, height, uc.tx)
+		// every invalid-signature class with the zero Source each iteration, the other declared Sources
+		// for a rotating third of the classes (the family is 65 ops otherwise and dominates the stream)
+		for ui, uc := range unsignedCases(g, et, k, chain) {
+			if strings.HasSuffix(uc.name, "/zero") || (ui/5)%3 == i%3 {
+				rn.vt("eth-unsigned-"+uc.name, c, height, uc.tx)
+			}
+		}
+		// the one decodable-but-non-canonical spelling (recipient 0xc0) needs a contract creation: make one
+		// every iteration, with the honest declared fields and with re-derived ones
+		{
+			cre, err := eth_tx.SignTx(eth_tx.NewContractCreation(g.nonce(), g.bigVal(), 21000, g.bigVal(), g.payloadData()), eth_tx.NewEIP155Signer(chain), k)
+			if err == nil {
+				cre = specV(cre, chain)
+				hw, _ := independentWrap(cre, k, chain)
+				its := itemsOf(cre)
+				its[3] = []byte{0xc0}
+				alt := rlpList(its...)
+				t1 := cloneTx(hw)
+				t1.ExtraData = "0x" + hx.Hex(alt)
+				rn.vt("eth-noncanonical-c0", c, height, t1)
+				t2 := cloneTx(t1)
+				t2.Hash = common.BytesToHash(refKeccak(alt))
+				rn.vt("eth-noncanonical-c0-hash-restated", c, height, t2)
+				rn.conv("conv-noncanonical-c0", chain, alt)
+			}
 		}
 		// Homestead-signed and other-chain payloads, wrapped as eth_rpc would wrap them
 		hom, _ := eth_tx.SignTx(g.ethUnsigned(), eth_tx.HomesteadSigner{}, k)
@@ -1306,6 +1387,7 @@ func main() {
 	st["generators"] = rn.tags
 	st["generator_results"] = rn.res
 	st["selfcheck_fail"] = selfcheckFail
+	st["branches"] = rn.branch
 	st["key_pool"] = pool2.stats
 	st["address_differs_from_reference"] = rn.addrViol
 	b, _ := json.Marshal(st)
